@@ -7,6 +7,7 @@
                          — multipart COMPOSITE and its full copies;
      recorded_full       type FULL_OBJECT; ETag md5-of-md5s "-N"; CRC absent or the CRC-combine of the parts
                          — multipart FULL_OBJECT / unspecified, AppendObject results, their full copies. *)
+From Coq Require Import Permutation.
 From Verif Require Import Bytes Codec Integrity IntegrityProofs.
 Local Open Scope N_scope.
 
@@ -114,6 +115,84 @@ Theorem C39_find_part_store_spec : forall d inner,
 Proof. exact find_part_store_spec. Qed.
 Print Assumptions C39_find_part_store_spec.
 
+(* ================= several buckets =================
+   [validate_buckets] is ValidateAll as a fold over the buckets with the report counters as the only
+   state carried from bucket to bucket; [verdict] gives (success, deleted, post-state of the key). *)
+
+(* the fold is a map: what happens in a bucket depends on that bucket only — no accumulator other than
+   the three counters (which are sums over the buckets) reaches a later bucket *)
+Theorem C39_buckets_independent : forall del bs,
+  validate_buckets current_layout del bs =
+  Some ({| c_total := sum_by (@length _) (map (validate_bucket del) bs);
+           c_failed := sum_by n_failed (map (validate_bucket del) bs);
+           c_deleted := sum_by n_deleted (map (validate_bucket del) bs) |},
+        map (validate_bucket del) bs).
+Proof. exact buckets_independent_stmt. Qed.
+Print Assumptions C39_buckets_independent.
+
+(* for every order in which the buckets are visited: same per-bucket results, same counters *)
+Theorem C39_bucket_order_irrelevant : forall del bs bs', Permutation bs bs' ->
+  exists c rs rs', validate_buckets current_layout del bs = Some (c, rs) /\
+                   validate_buckets current_layout del bs' = Some (c, rs') /\
+                   Permutation rs rs' /\
+                   rs = map (validate_bucket del) bs /\ rs' = map (validate_bucket del) bs'.
+Proof. exact bucket_order_irrelevant_stmt. Qed.
+Print Assumptions C39_bucket_order_irrelevant.
+
+(* deleted = flagged, bucket by bucket, for every placement of the corruption: in bucket k, object i is
+   reported iff corrupted, marked deleted iff corrupted and delete mode, and its key changes iff so *)
+Theorem C39_deleted_eq_flagged_per_bucket : forall del bs c rs,
+  Forall (fun b => Forall exact_class (bobjs b)) bs ->
+  validate_buckets current_layout del bs = Some (c, rs) ->
+  length rs = length bs /\
+  forall k b, nth_error bs k = Some b ->
+    exists r, nth_error rs k = Some r /\ length r = length (bobjs b) /\
+    forall i o, nth_error (bobjs b) i = Some o ->
+      exists v, nth_error r i = Some v /\
+        (fst (fst v) = false <-> corrupted o) /\
+        (snd (fst v) = true <-> corrupted o /\ del = true) /\
+        (snd v <> Kept <-> corrupted o /\ del = true) /\
+        (snd v = delete_effect (bvers b) \/ snd v = Kept).
+Proof. exact deleted_eq_flagged_stmt. Qed.
+Print Assumptions C39_deleted_eq_flagged_per_bucket.
+
+(* a report-only run deletes nothing in any bucket and DeletedObjects is 0 *)
+Theorem C39_report_only_deletes_nothing : forall bs c rs,
+  validate_buckets current_layout false bs = Some (c, rs) ->
+  c_deleted c = 0%nat /\ Forall (Forall (fun v : bool * bool * post => snd (fst v) = false /\ snd v = Kept)) rs.
+Proof. exact report_only_deletes_nothing_stmt. Qed.
+Print Assumptions C39_report_only_deletes_nothing.
+
+(* the counters of the report are the sums of the per-bucket verdicts *)
+Theorem C39_counters : forall del bs c rs,
+  validate_buckets current_layout del bs = Some (c, rs) ->
+  c_total c = sum_by (@length _) rs /\ c_failed c = sum_by n_failed rs /\ c_deleted c = sum_by n_deleted rs.
+Proof. exact counters_stmt. Qed.
+Print Assumptions C39_counters.
+
+(* "deletes ... when asked", at full strength: a deleted object is gone afterwards *)
+Definition C39_deleted_means_gone_full : Prop := forall del b o,
+  In o (bobjs b) -> snd (fst (verdict del (bvers b) o)) = true -> snd (verdict del (bvers b) o) = Gone.
+
+(* refuted: in a versioning-enabled bucket DeleteObject without a version id only adds a delete marker:
+   the report says "Deleted" (and counts it) while the corrupted version stays stored *)
+Theorem C39_deleted_means_gone_full_refuted : ~ C39_deleted_means_gone_full.
+Proof.
+  intros H.
+  specialize (H true {| bvers := true; bobjs := [to_obj [(5, None)] (put_spec 5)] |} (to_obj [(5, None)] (put_spec 5))
+                (or_introl eq_refl) eq_refl).
+  discriminate H.
+Qed.
+Print Assumptions C39_deleted_means_gone_full_refuted.
+
+(* ... and it holds for unversioned buckets *)
+Theorem C39_deleted_means_gone_partial : forall del b o,
+  bvers b = false -> snd (fst (verdict del (bvers b) o)) = true -> snd (verdict del (bvers b) o) = Gone.
+Proof.
+  intros del b o Hb H. rewrite Hb in *. unfold verdict in *. cbn [fst snd] in *. rewrite H. reflexivity.
+Qed.
+Print Assumptions C39_deleted_means_gone_partial.
+
 (* non-vacuity *)
 Example C39_ex_put_intact : validate_object (to_obj [] (put_spec 5)) = true.
 Proof. reflexivity. Qed.
@@ -124,4 +203,11 @@ Proof. reflexivity. Qed.
 Example C39_ex_retyped : validate_object (to_obj [] (tamper "t"%byte (multipart_spec TComp [4; 6]))) = false.
 Proof. reflexivity. Qed.
 Example C39_ex_delete : validate_all current_layout true [to_obj [(5, None)] (put_spec 5)] = Some [(false, true)].
+Proof. reflexivity. Qed.
+Example C39_ex_two_buckets :
+  validate_buckets current_layout true
+    [{| bvers := false; bobjs := [to_obj [(5, None)] (put_spec 5); to_obj [(5, None)] (put_spec 7)] |};
+     {| bvers := true; bobjs := [to_obj [(5, None)] (put_spec 9)] |}]
+  = Some ({| c_total := 3; c_failed := 1; c_deleted := 1 |},
+          [[(false, true, Gone); (true, false, Kept)]; [(true, false, Kept)]]).
 Proof. reflexivity. Qed.
